@@ -473,6 +473,10 @@ func lenGuarded(fn *ssa.Function, at *ssa.BasicBlock, arg ssa.Value) bool {
 						if sameValue(a, arg) && i == nilEdge && lenChecker(sc, j, 0) {
 							return true
 						}
+						// check(len(arg), want): a helper that returns nil only when the two numbers are equal
+						if isLenOf(a, arg) && i == nilEdge && eqChecker(sc, j) {
+							return true
+						}
 					}
 				}
 			}
@@ -550,6 +554,65 @@ func lenChecker(g *ssa.Function, j, depth int) bool {
 			}
 			n++
 			if !lenGuarded(g, b, g.Params[j]) {
+				return false
+			}
+		}
+	}
+	return n > 0
+}
+
+// eqChecker: g returns a nil error only when its j-th (integer) parameter has
+// been compared with another value and found equal (checkLen(got, want) error).
+func eqChecker(g *ssa.Function, j int) bool {
+	if len(g.Blocks) == 0 || j >= len(g.Params) || g.Signature.Results().Len() != 1 || !isErrorType(g.Signature.Results().At(0).Type()) {
+		return false
+	}
+	p := ssa.Value(g.Params[j])
+	var eqEdges []*ssa.BasicBlock
+	for _, b := range g.Blocks {
+		if len(b.Instrs) == 0 {
+			continue
+		}
+		iff, ok := b.Instrs[len(b.Instrs)-1].(*ssa.If)
+		if !ok {
+			continue
+		}
+		cmp, ok := iff.Cond.(*ssa.BinOp)
+		if !ok || (cmp.Op != token.EQL && cmp.Op != token.NEQ) || (stripConv(cmp.X) != p && stripConv(cmp.Y) != p) {
+			continue
+		}
+		eq := b.Succs[0]
+		if cmp.Op == token.NEQ {
+			eq = b.Succs[1]
+		}
+		eqEdges = append(eqEdges, eq)
+	}
+	if len(eqEdges) == 0 {
+		return false
+	}
+	n := 0
+	for _, b := range g.Blocks {
+		for _, in := range b.Instrs {
+			r, ok := in.(*ssa.Return)
+			if !ok || len(r.Results) != 1 {
+				continue
+			}
+			switch x := r.Results[0].(type) {
+			case *ssa.MakeInterface:
+				continue
+			case *ssa.Call:
+				if nm := calleeName(x.Common()); nm == "errors.New" || nm == "fmt.Errorf" {
+					continue
+				}
+			}
+			n++
+			ok = false
+			for _, e := range eqEdges {
+				if e == b || (len(e.Preds) == 1 && e.Dominates(b)) {
+					ok = true
+				}
+			}
+			if !ok {
 				return false
 			}
 		}
